@@ -506,4 +506,347 @@ theorem mbi_romCertV21_ok {c : CryptoOps} {pointOk : Bytes → Bool} {ca : Bool}
 
 end MbiRom
 
+section MbiRomV1
+open SpsdkVerif.Spec.MbiRom (rd32 rd16 sub need Rom romCertV1 certEntries CertV1Info)
+open SpsdkVerif.Mbi (certAt RomCertV1OK certSetImageLength)
+
+/-- positions (offset of the DER bytes, length) of the certificates of a table that starts at `o` -/
+def relCerts : List Bytes → Nat → List (Nat × Nat)
+  | [], _ => []
+  | c :: rest, o => (o + 4, c.length) :: relCerts rest (o + 4 + c.length)
+
+theorem relCerts_shift : ∀ (certs : List Bytes) (o off : Nat),
+    relCerts certs (off + o) = (relCerts certs o).map (fun p => (off + p.1, p.2))
+  | [], _, _ => rfl
+  | c :: rest, o, off => by
+    simp only [relCerts, List.map_cons, List.cons.injEq, Prod.mk.injEq, and_true]
+    refine ⟨by omega, ?_⟩
+    have := relCerts_shift rest (o + 4 + c.length) off
+    rw [← this]; congr 1; omega
+
+/-- the ROM's walk over the length-prefixed certificate table -/
+theorem certEntries_ok : ∀ (certs : List Bytes) (pre post : Bytes) (limit : Nat),
+    (∀ c ∈ certs, 0 < c.length ∧ c.length < 256 ^ 4) →
+    pre.length + certTableLength certs ≤ limit →
+    certEntries (pre ++ ((certs.map (fun c => leEnc 4 c.length ++ c)).flatten ++ post)) certs.length pre.length limit
+      = .ok (relCerts certs pre.length, pre.length + certTableLength certs)
+  | [], pre, post, limit, _, _ => by simp [certEntries, relCerts, certTableLength]
+  | c :: rest, pre, post, limit, h, hl => by
+    obtain ⟨h0, h1⟩ := h c (by simp)
+    have hctl : certTableLength (c :: rest) = c.length + 4 + certTableLength rest := by
+      simp [certTableLength]
+    rw [hctl] at hl
+    have hrd : rd32 (pre ++ (((c :: rest).map (fun c => leEnc 4 c.length ++ c)).flatten ++ post)) pre.length = c.length := by
+      simp only [List.map_cons, List.flatten_cons, List.append_assoc]
+      exact rd32_at pre _ _ _ rfl h1
+    have hre : pre ++ (((c :: rest).map (fun c => leEnc 4 c.length ++ c)).flatten ++ post) =
+        (pre ++ leEnc 4 c.length ++ c) ++ ((rest.map (fun c => leEnc 4 c.length ++ c)).flatten ++ post) := by
+      simp only [List.map_cons, List.flatten_cons, List.append_assoc]
+    have hpl : (pre ++ leEnc 4 c.length ++ c).length = pre.length + 4 + c.length := by
+      simp only [List.length_append, leEnc_len]
+    have ih := certEntries_ok rest (pre ++ leEnc 4 c.length ++ c) post limit (fun x hx => h x (by simp [hx]))
+      (by rw [hpl]; omega)
+    rw [← hre, hpl] at ih
+    have c1 : decide (pre.length + 4 ≤ limit) = true := by simp; omega
+    have c2 : decide (c.length > 0 ∧ pre.length + 4 + c.length ≤ limit) = true := by simp; omega
+    simp only [List.length_cons, certEntries, hrd, c1, c2, need_true, rbind_ok, ih, rpure_ok, relCerts, hctl]
+    congr 2
+    omega
+
+
+/-- what the MBI ROM additionally requires of a well-formed v1 block: version 1.0, at most four non-empty certificates,
+    and the block aligned to 4 (as `Mbi_MixinCertBlockV1` exports it) -/
+structure RomWFv1 (cb : CertBlockV1) : Prop where
+  major : cb.major = 1
+  minor : cb.minor = 0
+  count : cb.certs.length ≤ 4
+  nonempty : ∀ c ∈ cb.certs, 0 < c.length
+  align : cb.alignment = 4
+
+theorem bytesV1_nested (cb : CertBlockV1) (pad : Bytes)
+    (hpad : List.replicate (alignNat (bodyV1 cb).length cb.alignment - (bodyV1 cb).length) (0 : UInt8) = pad) :
+    bytesV1 cb = G.cbV1Signature ++ (leEnc 2 cb.major ++ (leEnc 2 cb.minor ++ (leEnc 4 32 ++ (leEnc 4 cb.flags ++
+      (leEnc 4 cb.buildNumber ++ (leEnc 4 cb.imageLength ++ (leEnc 4 cb.certs.length ++
+      (leEnc 4 (certTableLength cb.certs) ++ ((cb.certs.map (fun c => leEnc 4 c.length ++ c)).flatten ++
+        ((pad4 cb.rkh).flatten ++ pad)))))))))) := by
+  unfold bytesV1; rw [hpad]; simp only [bodyV1, List.append_assoc]
+
+theorem bodyV1_len_il (cb : CertBlockV1) (il : Nat) : (bodyV1 { cb with imageLength := il }).length = (bodyV1 cb).length := by
+  simp only [bodyV1, List.length_append, leEnc_len]
+
+/-- patching the `image_length` word of an exported block = exporting the block with that image length -/
+theorem setImageLength_bytesV1 (cb : CertBlockV1) (il : Nat) :
+    certSetImageLength (bytesV1 cb) il = bytesV1 { cb with imageLength := il } := by
+  have hsig : G.cbV1Signature.length = 4 := rfl
+  generalize hpad : List.replicate (alignNat (bodyV1 cb).length cb.alignment - (bodyV1 cb).length) (0 : UInt8) = pad
+  have hpad' : List.replicate (alignNat (bodyV1 { cb with imageLength := il }).length cb.alignment -
+      (bodyV1 { cb with imageLength := il }).length) (0 : UInt8) = pad := by rw [bodyV1_len_il]; exact hpad
+  rw [bytesV1_nested cb pad hpad, bytesV1_nested { cb with imageLength := il } pad hpad']
+  have e : ∀ (x t : Bytes), G.cbV1Signature ++ (leEnc 2 cb.major ++ (leEnc 2 cb.minor ++ (leEnc 4 32 ++ (leEnc 4 cb.flags ++
+      (leEnc 4 cb.buildNumber ++ (x ++ t)))))) = (G.cbV1Signature ++ leEnc 2 cb.major ++ leEnc 2 cb.minor ++ leEnc 4 32 ++
+      leEnc 4 cb.flags ++ leEnc 4 cb.buildNumber) ++ (x ++ t) := by intro x t; simp only [List.append_assoc]
+  have hl : (G.cbV1Signature ++ leEnc 2 cb.major ++ leEnc 2 cb.minor ++ leEnc 4 32 ++
+      leEnc 4 cb.flags ++ leEnc 4 cb.buildNumber).length = 20 := by simp only [List.length_append, leEnc_len, hsig]
+  simp only [certSetImageLength, Mbi.setAt, Mbi.certImageLengthOffset, Mbi.le32]
+  rw [e, e, List.take_left' hl, leEnc_len, show 20 + 4 = 20 + 4 from rfl, ← List.drop_drop, List.drop_left' hl,
+    List.drop_left' (leEnc_len 4 _)]
+  simp only [List.append_assoc]
+
+
+theorem alignNat4 (n : Nat) : alignNat n 4 = MbiRom.align4 n := rfl
+
+theorem table_of_pad4 (l : List Bytes) (hl : l.length ≤ 4) (h32 : ∀ h ∈ l, h.length = 32) :
+    (List.range 4).map (fun i => sub (pad4 l).flatten (i * 32) ((i + 1) * 32)) = pad4 l := by
+  obtain ⟨a, b, c, d, e⟩ := Rkht.list_eq4 (pad4 l) (pad4_len l hl)
+  have hm := pad4_32 l h32
+  rw [e] at hm ⊢
+  have ha := hm a (by simp); have hb := hm b (by simp); have hc := hm c (by simp); have hd := hm d (by simp)
+  have r : List.range 4 = [0, 1, 2, 3] := by decide
+  simp only [r, List.map_cons, List.map_nil, List.flatten_cons, List.flatten_nil, List.append_nil]
+  have s0 : sub (a ++ (b ++ (c ++ d))) (0 * 32) ((0 + 1) * 32) = a := sub_at [] a _ _ _ rfl (by simp [ha])
+  have s1 : sub (a ++ (b ++ (c ++ d))) (1 * 32) ((1 + 1) * 32) = b := sub_at a b _ _ _ (by simp [ha]) (by simp [hb])
+  have s2 : sub (a ++ (b ++ (c ++ d))) (2 * 32) ((2 + 1) * 32) = c := by
+    have := sub_at (a ++ b) c d (2 * 32) ((2 + 1) * 32) (by simp [ha, hb]) (by simp [hc])
+    simpa only [List.append_assoc] using this
+  have s3 : sub (a ++ (b ++ (c ++ d))) (3 * 32) ((3 + 1) * 32) = d := by
+    have := sub_at (a ++ b ++ c) d [] (3 * 32) ((3 + 1) * 32) (by simp [ha, hb, hc]) (by simp [hd])
+    simpa only [List.append_assoc, List.append_nil] using this
+  rw [s0, s1, s2, s3]
+
+/-- MBI ROM (Spec/MbiRom.lean `romCertV1`, property C02): wherever a well-formed exported v1 block (with any `image_length`
+    patched in) sits in an image, the walk accepts it against the fuse value SHA-256(RKH table), finds the certificates at
+    their positions, the four-slot RKH table, the image length, and ends at `off + |block|` - this is `RomCertV1OK` -/
+theorem mbi_romCertV1_ok {c : CryptoOps} {certOk : Bytes → Bool} {cb : CertBlockV1} (wf : WFv1 certOk cb) (rwf : RomWFv1 cb)
+    (renv : Spec.MbiRom.RomEnv) (hrkth : renv.rkth = c.hash .sha256 (pad4 cb.rkh).flatten) :
+    RomCertV1OK c renv (bytesV1 cb) (relCerts cb.certs 32) (pad4 cb.rkh) := by
+  refine ⟨?_, ?_⟩
+  · cases h : cb.certs with
+    | nil => exact absurd h wf.certs_ne
+    | cons a t => simp [relCerts]
+  intro body off il hat hil
+  rw [setImageLength_bytesV1] at hat
+  have p16 : (65536 : Nat) = 256 ^ 2 := by decide
+  have p32 : (2 : Nat) ^ 32 = 256 ^ 4 := by decide
+  have hsig : G.cbV1Signature.length = 4 := rfl
+  have wf' : WFv1 certOk { cb with imageLength := il } := { wf with image := hil }
+  generalize hcb' : ({ cb with imageLength := il } : CertBlockV1) = cb' at hat wf'
+  have f1 : cb'.major = 1 := by rw [← hcb']; exact rwf.major
+  have f2 : cb'.minor = 0 := by rw [← hcb']; exact rwf.minor
+  have f3 : cb'.certs = cb.certs := by rw [← hcb']
+  have f4 : cb'.rkh = cb.rkh := by rw [← hcb']
+  have f5 : cb'.alignment = 4 := by rw [← hcb']; exact rwf.align
+  have f6 : cb'.imageLength = il := by rw [← hcb']
+  have hlen' : (bytesV1 cb').length = (bytesV1 cb).length := by
+    rw [← hcb']; simp only [bytesV1, List.length_append, List.length_replicate, bodyV1_len_il]
+  have hne : bytesV1 cb' ≠ [] := by
+    intro h; have := congrArg List.length h; rw [hlen'] at this
+    have hb := bodyV1_len certOk cb wf
+    simp only [bytesV1, List.length_append, List.length_nil] at this; omega
+  obtain ⟨P, Q, himg, hP⟩ := certAt_split hat hne
+  generalize hpad : List.replicate (alignNat (bodyV1 cb').length cb'.alignment - (bodyV1 cb').length) (0 : UInt8) = pad
+  rw [bytesV1_nested cb' pad hpad] at himg
+  have hmaj : cb'.major < 256 ^ 2 := by rw [f1]; decide
+  have hmin : cb'.minor < 256 ^ 2 := by rw [f2]; decide
+  have hcount : cb'.certs.length < 256 ^ 4 := by rw [← p32]; exact wf'.count
+  have hctl : certTableLength cb'.certs < 256 ^ 4 := by rw [← p32]; exact wf'.table
+  have hil' : cb'.imageLength < 256 ^ 4 := by rw [← p32]; exact wf'.image
+  have hT : (pad4 cb'.rkh).flatten.length = 128 := by
+    rw [flatten32 _ (pad4_32 _ wf'.rkh), pad4_len _ wf'.rkh_len]
+  have hcb : (cb'.certs.map (fun c => leEnc 4 c.length ++ c)).flatten.length = certTableLength cb'.certs := certsBytes_len _
+  have r1 : sub body off (off + 4) = G.cbV1Signature := by
+    rw [himg]; exact sub_at P _ _ _ _ hP (by rw [hsig])
+  have r2 : rd16 body (off + 4) = cb'.major := by
+    rw [himg, show ∀ t : Bytes, P ++ (G.cbV1Signature ++ (leEnc 2 cb'.major ++ t) ++ Q) =
+      (P ++ G.cbV1Signature) ++ (leEnc 2 cb'.major ++ (t ++ Q)) from by intro t; simp only [List.append_assoc]]
+    exact rd16_at _ _ _ _ (by simp only [List.length_append, hP, hsig]) hmaj
+  have r3 : rd16 body (off + 6) = cb'.minor := by
+    rw [himg, show ∀ t : Bytes, P ++ (G.cbV1Signature ++ (leEnc 2 cb'.major ++ (leEnc 2 cb'.minor ++ t)) ++ Q) =
+      (P ++ G.cbV1Signature ++ leEnc 2 cb'.major) ++ (leEnc 2 cb'.minor ++ (t ++ Q)) from by intro t; simp only [List.append_assoc]]
+    exact rd16_at _ _ _ _ (by simp only [List.length_append, hP, hsig, leEnc_len]) hmin
+  have r4 : rd32 body (off + 8) = 32 := by
+    rw [himg, show ∀ t : Bytes, P ++ (G.cbV1Signature ++ (leEnc 2 cb'.major ++ (leEnc 2 cb'.minor ++ (leEnc 4 32 ++ t))) ++ Q) =
+      (P ++ G.cbV1Signature ++ leEnc 2 cb'.major ++ leEnc 2 cb'.minor) ++ (leEnc 4 32 ++ (t ++ Q)) from by
+        intro t; simp only [List.append_assoc]]
+    exact rd32_at _ _ _ _ (by simp only [List.length_append, hP, hsig, leEnc_len]) (by decide)
+  have r5 : rd32 body (off + 20) = cb'.imageLength := by
+    rw [himg, show ∀ t : Bytes, P ++ (G.cbV1Signature ++ (leEnc 2 cb'.major ++ (leEnc 2 cb'.minor ++ (leEnc 4 32 ++
+      (leEnc 4 cb'.flags ++ (leEnc 4 cb'.buildNumber ++ (leEnc 4 cb'.imageLength ++ t)))))) ++ Q) =
+      (P ++ G.cbV1Signature ++ leEnc 2 cb'.major ++ leEnc 2 cb'.minor ++ leEnc 4 32 ++ leEnc 4 cb'.flags ++ leEnc 4 cb'.buildNumber)
+        ++ (leEnc 4 cb'.imageLength ++ (t ++ Q)) from by intro t; simp only [List.append_assoc]]
+    exact rd32_at _ _ _ _ (by simp only [List.length_append, hP, hsig, leEnc_len]) hil'
+  have r6 : rd32 body (off + 24) = cb'.certs.length := by
+    rw [himg, show ∀ t : Bytes, P ++ (G.cbV1Signature ++ (leEnc 2 cb'.major ++ (leEnc 2 cb'.minor ++ (leEnc 4 32 ++
+      (leEnc 4 cb'.flags ++ (leEnc 4 cb'.buildNumber ++ (leEnc 4 cb'.imageLength ++ (leEnc 4 cb'.certs.length ++ t))))))) ++ Q) =
+      (P ++ G.cbV1Signature ++ leEnc 2 cb'.major ++ leEnc 2 cb'.minor ++ leEnc 4 32 ++ leEnc 4 cb'.flags ++ leEnc 4 cb'.buildNumber
+        ++ leEnc 4 cb'.imageLength) ++ (leEnc 4 cb'.certs.length ++ (t ++ Q)) from by intro t; simp only [List.append_assoc]]
+    exact rd32_at _ _ _ _ (by simp only [List.length_append, hP, hsig, leEnc_len]) hcount
+  have r7 : rd32 body (off + 28) = certTableLength cb'.certs := by
+    rw [himg, show ∀ t : Bytes, P ++ (G.cbV1Signature ++ (leEnc 2 cb'.major ++ (leEnc 2 cb'.minor ++ (leEnc 4 32 ++
+      (leEnc 4 cb'.flags ++ (leEnc 4 cb'.buildNumber ++ (leEnc 4 cb'.imageLength ++ (leEnc 4 cb'.certs.length ++
+      (leEnc 4 (certTableLength cb'.certs) ++ t)))))))) ++ Q) =
+      (P ++ G.cbV1Signature ++ leEnc 2 cb'.major ++ leEnc 2 cb'.minor ++ leEnc 4 32 ++ leEnc 4 cb'.flags ++ leEnc 4 cb'.buildNumber
+        ++ leEnc 4 cb'.imageLength ++ leEnc 4 cb'.certs.length) ++ (leEnc 4 (certTableLength cb'.certs) ++ (t ++ Q)) from by
+        intro t; simp only [List.append_assoc]]
+    exact rd32_at _ _ _ _ (by simp only [List.length_append, hP, hsig, leEnc_len]) hctl
+  -- the part behind the 32-byte header
+  have hbody : body = (P ++ G.cbV1Signature ++ leEnc 2 cb'.major ++ leEnc 2 cb'.minor ++ leEnc 4 32 ++ leEnc 4 cb'.flags ++
+      leEnc 4 cb'.buildNumber ++ leEnc 4 cb'.imageLength ++ leEnc 4 cb'.certs.length ++ leEnc 4 (certTableLength cb'.certs)) ++
+      ((cb'.certs.map (fun c => leEnc 4 c.length ++ c)).flatten ++ ((pad4 cb'.rkh).flatten ++ (pad ++ Q))) := by
+    rw [himg]; simp only [List.append_assoc]
+  have hpre : (P ++ G.cbV1Signature ++ leEnc 2 cb'.major ++ leEnc 2 cb'.minor ++ leEnc 4 32 ++ leEnc 4 cb'.flags ++
+      leEnc 4 cb'.buildNumber ++ leEnc 4 cb'.imageLength ++ leEnc 4 cb'.certs.length ++ leEnc 4 (certTableLength cb'.certs)).length
+      = off + 32 := by simp only [List.length_append, hP, hsig, leEnc_len]
+  have hce := certEntries_ok cb'.certs _ ((pad4 cb'.rkh).flatten ++ (pad ++ Q)) (off + 32 + certTableLength cb'.certs)
+    (fun x hx => ⟨by rw [f3] at hx; exact rwf.nonempty x hx, by rw [← p32]; exact (wf'.certs x hx).1⟩) (by rw [hpre]; exact Nat.le_refl _)
+  rw [← hbody, hpre] at hce
+  have hbl : body.length = off + 32 + certTableLength cb'.certs + 128 + pad.length + Q.length := by
+    rw [hbody]; simp only [List.length_append, hpre, hcb, hT]; omega
+  have rT : sub body (off + 32 + certTableLength cb'.certs) (off + 32 + certTableLength cb'.certs + 4 * 32) = (pad4 cb'.rkh).flatten := by
+    rw [hbody, show ∀ (a b c d : Bytes), a ++ (b ++ (c ++ d)) = (a ++ b) ++ (c ++ d) from by intros; simp only [List.append_assoc]]
+    exact sub_at _ _ _ _ _ (by simp only [List.length_append, hpre, hcb]) (by rw [hT])
+  have hmag : (G.cbV1Signature == MbiRom.certV1Magic) = true := by decide
+  have n0 : off + 32 ≤ body.length := by rw [hbl]; omega
+  have ncnt : 1 ≤ cb'.certs.length ∧ cb'.certs.length ≤ 4 := by
+    rw [f3]; refine ⟨?_, rwf.count⟩
+    cases h : cb.certs with
+    | nil => exact absurd h wf.certs_ne
+    | cons a t => simp
+  have nrk : off + 32 + certTableLength cb'.certs + 4 * 32 ≤ body.length := by rw [hbl]; omega
+  have hh : (c.hash .sha256 (pad4 cb'.rkh).flatten == renv.rkth) = true := by rw [hrkth, f4]; simp
+  simp only [romCertV1, MbiRom.certV1HeaderSize, MbiRom.rkhTableEntries, MbiRom.rkhSize, n0, decide_true, need_true, rbind_ok,
+    r1, hmag, r2, r3, r4, f1, f2, beq_self_eq_true, and_self, r5, r6, r7, ncnt, hce, nrk, rT, hh, rpure_ok]
+  refine ⟨_, rfl, ?_, ?_, f6, ?_⟩
+  · simp only [f3]; exact relCerts_shift cb.certs 32 off
+  · simp only [f4]; exact table_of_pad4 cb.rkh wf.rkh_len wf.rkh
+  · simp only
+    have hb := bodyV1_len certOk cb wf
+    have : (bytesV1 cb).length = alignNat (32 + certTableLength cb.certs + 128) 4 := by
+      have ha := (alignNat_spec (bodyV1 cb).length cb.alignment wf.align).2.1
+      simp only [bytesV1, List.length_append, List.length_replicate]
+      rw [Nat.add_sub_cancel' ha, hb, rwf.align]
+    have e : off + 32 + certTableLength cb.certs + 4 * 32 - off = 32 + certTableLength cb.certs + 128 := by omega
+    rw [this, alignNat4, f3, e]
+
+end MbiRomV1
+
+section EndToEnd
+open SpsdkVerif.Rkht
+open SpsdkVerif.Mbi (RomCertV21OK RomCertV1OK)
+
+/-! ### end to end: blocks built from root keys are accepted against `Spec.rotkh` -/
+
+theorem hashAlg_of_curve {k : Key} {cv : Curve} (h : k.curve? = some cv) : k.hashAlg = cv.hashAlg := by
+  obtain ⟨x, y, rfl⟩ := key_of_curve h; rfl
+
+/-- the fuse value of a calculated root key record is the documented cert-block-2.1 value of the key list -/
+theorem rotkhOfRecord_calculated (c : CryptoOps) (ks : List Key) (cv : Curve) (ku : Key) (used : Nat) (flags : Nat)
+    (h1 : 1 ≤ ks.length) (hku : ks[used]? = some ku) (hu : used < ks.length) (hall : ∀ k ∈ ks, k.curve? = some cv) :
+    rotkhOfRecord c cv { flags := flags, rkh := ks.map (keyHash c), rootPublicKey := ku.material } = Spec.rotkh c .certBlock21 ks := by
+  have e : Spec.rotkh c .certBlock21 ks = rotkhV21 c ks := by simp [Spec.rotkh, rotkhCa, List.map_map, Function.comp_def]
+  rw [e]
+  cases ks with
+  | nil => simp at h1
+  | cons k0 rest =>
+    cases rest with
+    | nil =>
+      have h0 : used = 0 := by simp at hu; omega
+      subst h0
+      simp only [List.getElem?_cons_zero, Option.some.injEq] at hku
+      subst hku
+      have hh := hashAlg_of_curve (hall k0 (by simp))
+      simp [rotkhOfRecord, rotkhV21, keyHash, hh]
+    | cons k1 r =>
+      simp [rotkhOfRecord, rotkhV21, ctrkTable, hashAlg_of_curve (hall k0 (by simp))]
+
+theorem romWF_calculated (c : CryptoOps) (ks : List Key) (cv : Curve) (ku : Key) (used : Nat) (flags : Nat) (isk : Option IskCert)
+    (hku : ks[used]? = some ku) (hu : used < ks.length) (hall : ∀ k ∈ ks, k.curve? = some cv) :
+    RomWF c used cv ⟨2, 1, { flags := flags, rkh := ks.map (keyHash c), rootPublicKey := ku.material }, isk⟩ where
+  major := rfl
+  minor := rfl
+  used_lt := by simpa using hu
+  entry := by
+    intro _
+    have hm : ku ∈ ks := List.mem_of_getElem? hku
+    simp only [List.getElem?_map, hku, Option.map_some, keyHash, hashAlg_of_curve (hall ku hm)]
+
+
+theorem exportV21_len_le {c : CryptoOps} {ca : Bool} {used : Nat} {cv : Curve} {r : RootKeyRecord} (wr : WFrkr c ca used cv r) :
+    (rkrBytes r).length ≤ 4 + 4 * 48 + 96 := by
+  have hs : cv.hashAlg.size ≤ 48 := by
+    cases cv with
+    | p256 => decide
+    | p384 => decide
+    | p521 => exact absurd rfl wr.cv_ok
+  have hfl := Rkht.flatten_lenN _ _ wr.rkh
+  have : (exportV21 r.rkh).length ≤ 4 * 48 := by
+    simp only [exportV21]; split
+    · rw [hfl]; have := Nat.mul_le_mul hs wr.count4; omega
+    · simp
+  simp only [rkrBytes, List.length_append, leEnc_len, wr.pk]; omega
+
+/-- a block without ISK certificate around a well-formed record is well formed -/
+theorem wf_caBlock {c : CryptoOps} (pointOk : Bytes → Bool) {used : Nat} {cv : Curve} {r : RootKeyRecord}
+    (wr : WFrkr c true used cv r) : WFv21 c pointOk true used cv ⟨2, 1, r, none⟩ where
+  major := by show 2 < 65536; decide
+  minor := by show 1 < 65536; decide
+  rkr := wr
+  isk_none := fun _ => rfl
+  isk_some := fun h => by cases h
+  size := by have := exportV21_len_le wr; simp only [headerSizeV21]; omega
+
+/-- END TO END (cert block v2.1, no ISK): the block SPSDK builds from a key list of the documented domain
+    (`RootKeyRecord.calculate`, CA flag set, any used index) is accepted by the SB3.1 loader and by the MBI ROM against the
+    documented fuse value `Spec.rotkh … cert_block_21 ks`, and both report the selected root key as the signing key -/
+theorem built_v21_block_accepted (c : CryptoOps) (hc : CryptoLaws c) (ks : List Key) (h : KeysOK .certBlock21 ks)
+    (used : Nat) (hu : used < ks.length) :
+    ∃ (r : RootKeyRecord) (cv : Curve) (ku : Key), rkrCalculate c true ks used = .ok r ∧ ks[used]? = some ku ∧
+      exportV21Block ⟨2, 1, r, none⟩ = .ok (bytesV21 ⟨2, 1, r, none⟩) ∧
+      Sb31.Rom.romCert c (Spec.rotkh c .certBlock21 ks) (bytesV21 ⟨2, 1, r, none⟩) = .ok (⟨ku.material, cv.hashAlg.size⟩, []) ∧
+      ∀ renv : Spec.MbiRom.RomEnv, renv.rkth = Spec.rotkh c .certBlock21 ks →
+        RomCertV21OK c renv (bytesV21 ⟨2, 1, r, none⟩) ku.material.length ku.material (fun _ _ => []) := by
+  obtain ⟨h1, h4, _, _⟩ := keysOK_cb21 h
+  obtain ⟨cv, ku, hcv, hku, hkc, hall, hcalc⟩ := rkrCalculate_ok c hc ks h used hu true
+  have wr := wf_calculated c hc ks cv ku used true hcv h1 h4 hu hku hkc hall
+  have wf := wf_caBlock (c := c) (fun _ => true) wr
+  have rw_ := romWF_calculated c ks cv ku used (rkrFlags true used ks.length cv) none hku hu hall
+  have hrot := rotkhOfRecord_calculated c ks cv ku used (rkrFlags true used ks.length cv) h1 hku hu hall
+  refine ⟨_, cv, ku, hcalc, hku, exportV21Block_ok wf, ?_, ?_⟩
+  · have := sb31_romCert_accepts wf rw_ (fun i hi => by cases hi)
+    rw [hrot] at this
+    exact this
+  · intro renv hr
+    have := mbi_romCertV21_ok wf rw_ renv (by rw [hr, hrot])
+    exact this
+
+/-- the ISK signature made by the selected root key verifies: the hypothesis of `sb31_romCert_accepts` for a block whose
+    ISK certificate was signed at export (`CryptoLaws.verify_sign`) -/
+theorem isk_signature_accepted (c : CryptoOps) (hc : CryptoLaws c) (alg : HashAlg) (sk rand : Bytes) (r : RootKeyRecord) (i : IskCert)
+    (hpub : r.rootPublicKey = c.pubOf sk) (hs : i.signature = c.sign (.ecdsa alg) sk (rkrBytes r ++ iskSignedPart i) rand) :
+    c.verify (.ecdsa alg) r.rootPublicKey (rkrBytes r ++ iskSignedPart i) i.signature = true := by
+  rw [hpub, hs]; exact hc.verify_sign _ _ _ _
+
+/-- the signed part does not mention the signature: signing first and attaching the signature afterwards is consistent -/
+theorem iskSignedPart_sig (i : IskCert) (s : Bytes) : iskSignedPart { i with signature := s } = iskSignedPart i := rfl
+
+/-- END TO END (cert block v1): the fuse value the MBI ROM compares the RKH table with is the documented
+    `Spec.rotkh … cert_block_1 ks` when the table holds the hashes `CertBlockV1.set_root_key_hash` computes -/
+theorem built_v1_block_accepted (c : CryptoOps) (hc : CryptoLaws c) (ks : List Key) (h : KeysOK .certBlock1 ks)
+    {certOk : Bytes → Bool} {cb : CertBlockV1} (wf : WFv1 certOk cb) (rwf : RomWFv1 cb)
+    (hrkh : certBlockV1Rkh c ks = .ok cb.rkh) (renv : Spec.MbiRom.RomEnv) (hr : renv.rkth = Spec.rotkh c .certBlock1 ks) :
+    RomCertV1OK c renv (bytesV1 cb) (relCerts cb.certs 32) (pad4 cb.rkh) := by
+  apply mbi_romCertV1_ok wf rwf renv
+  obtain ⟨_, h4, hk⟩ := keysOK_cb1 h
+  have hs := setAll_ok c hc ks [] (by simpa using h4) (fun k hk' => (hk k hk').1) (by simp)
+  have hm : ks.map (fun k => c.hash .sha256 k.material) = ks.map (keyHash c) := by
+    apply List.map_congr_left
+    intro k hk'
+    simp only [keyHash, hashAlg_rsa (hk k hk').2]
+  simp only [List.length_nil, List.nil_append] at hs
+  rw [certBlockV1Rkh, hs, hm] at hrkh
+  have hrk : cb.rkh = ks.map (keyHash c) := by injection hrkh with e; exact e.symm
+  rw [hr, hrk]
+  simp [Spec.rotkh, rotkhCa, rotkhV1, rkhTableV1, pad4, List.map_map, Function.comp_def]
+
+end EndToEnd
+
 end SpsdkVerif.CertBlock
